@@ -79,31 +79,41 @@ def name_matches(shortpath, pat):
 # ------------------------------------------------------------------------------------------------
 # values (def-use provenance, A5)
 # ------------------------------------------------------------------------------------------------
-class V(tuple):
+class V(object):
     """(kind, key, projs).  kind: arg|call|const|local|bin|un|agg|discr|other."""
-    __slots__ = ()
+    __slots__ = ('kind', 'key', 'projs')
 
-    def __new__(cls, kind, key, projs=()):
-        return tuple.__new__(cls, (kind, key, tuple(projs)))
+    def __init__(self, kind, key, projs=()):
+        self.kind = kind
+        self.key = key
+        self.projs = tuple(projs)
 
-    kind = property(lambda s: s[0])
-    key = property(lambda s: s[1])
-    projs = property(lambda s: s[2])
+    def _t(self):
+        return (self.kind, self.key, self.projs)
+
+    def __eq__(self, o):
+        return isinstance(o, V) and self._t() == o._t()
+
+    def __ne__(self, o):
+        return not self.__eq__(o)
+
+    def __hash__(self):
+        return hash(self._t())
 
     def with_proj(self, p):
-        pr = list(self[2])
+        pr = list(self.projs)
         if pr and ((pr[-1] == 'ref' and p == 'deref') or (pr[-1] == 'deref' and p == 'ref')):
             pr.pop()
         else:
             pr.append(p)
-        return V(self[0], self[1], pr)
+        return V(self.kind, self.key, pr)
 
     def fields(self):
         """projection list without ref/deref/downcast noise"""
-        return tuple(p for p in self[2] if p.startswith('.'))
+        return tuple(p for p in self.projs if p.startswith('.'))
 
     def __repr__(self):
-        return '%s:%s%s' % (self[0], self[1], ''.join('[%s]' % p for p in self[2]))
+        return '%s:%s%s' % (self.kind, self.key, ''.join('[%s]' % p for p in self.projs))
 
 
 def proj_str(e):
